@@ -67,7 +67,7 @@ def gen_case(rng, idx):
             ops.append({"op": "add", "i": i, "j": j})
             n_pool += 1
         elif kind == "scale":
-            c = float(rng.choice([0.0, 0.5, 2.0, 1e-7, float(np.round(rng.uniform(0, 10), 3))]))
+            c = float(rng.choice([0.0, 0.5, 2.0, 1e-7, -1.0, -0.5, float(np.round(rng.uniform(0, 10), 3))]))        # a difference is written a + b * (-1)
             ops.append({"op": "scale", "i": int(rng.integers(n_pool)), "c": c})
             n_pool += 1
         elif kind == "emissions":
